@@ -22,6 +22,19 @@ type vfCustomErr struct{ msg string }
 
 func (e *vfCustomErr) Error() string { return e.msg }
 
+// Application error types whose method sets or fields LOOK like the framework's own typed errors
+// (any structural test on the error value would take them for one): still "any other error".
+type vfLookalikeErr struct{ msg string }
+
+func (e *vfLookalikeErr) Error() string     { return e.msg }
+func (e *vfLookalikeErr) ErrorType() string { return "vgirpc.vfLookalikeErr" }
+
+type vfLookalikeValueErr struct{ Type, Message string }
+
+func (e vfLookalikeValueErr) Error() string     { return e.Message }
+func (e vfLookalikeValueErr) ErrorType() string { return "main.lookalikeValue" }
+func (e vfLookalikeValueErr) Unwrap() error     { return nil }
+
 type vfC05Err struct {
 	name   string
 	mk     func() error // nil => panic value in pv
@@ -41,6 +54,8 @@ func vfC05Errors() []vfC05Err {
 		{name: "wrapped-rpc", mk: func() error { return fmt.Errorf("ctx: %w", &RpcError{Type: "ValueError", Message: "inner"}) }, want: []string{"RuntimeError", "ValueError"}, kind: "?", msgHas: "inner"},
 		{name: "plain-error", mk: func() error { return errors.New("plain failure") }, want: []string{"RuntimeError"}, msgHas: "plain failure"},
 		{name: "custom-type", mk: func() error { return &vfCustomErr{"custom failure"} }, want: []string{"RuntimeError"}, msgHas: "custom failure"},
+		{name: "lookalike-ptr-with-ErrorType-method", mk: func() error { return &vfLookalikeErr{"lookalike failure"} }, want: []string{"RuntimeError"}, kind: "?", msgHas: "lookalike failure"},
+		{name: "lookalike-value-with-Type-field", mk: func() error { return vfLookalikeValueErr{Type: "ValueError", Message: "lookalike value"} }, want: []string{"RuntimeError"}, kind: "?", msgHas: "lookalike value"},
 		{name: "joined", mk: func() error { return errors.Join(errors.New("j1"), errors.New("j2")) }, want: []string{"RuntimeError"}, msgHas: "j1"},
 		{name: "fw-not-implemented", mk: func() error { return &MethodNotImplementedError{Method: "zz"} }, want: []string{"AttributeError"}, kind: "MethodNotImplementedError", msgHas: "zz"},
 		{name: "fw-protocol-version", mk: func() error { return &ProtocolVersionError{Message: "pv"} }, want: []string{"ProtocolVersionError"}, kind: "protocol_version_mismatch", msgHas: "pv"},
